@@ -9,8 +9,7 @@ from harness import impl_kernel as ik  # noqa: E402
 import numpy as np  # noqa: E402
 
 
-def main():
-    run = Run('C01')
+def body(run):
     run.build(extra_targets=['theories/Corr/CheckC01.v'])
     rng = run.rng('kernel')
     cases, metas, dist = [], [], {}
@@ -63,8 +62,7 @@ def main():
     run.extra['input_distribution'] = dict(by_model_mask_kernel=dist, model_cases=len(cases), model_nontrivial=nt)
     run.trusted += ['OpenCV boxFilter/sqrBoxFilter, NumPy std/percentile and rasterio fillnodata are modelled / observed, not verified',
                     'float32 rounding is bounded by Corr.CheckC01 tolerances derived from the exact model values, not proved']
-    run.finish()
 
 
 if __name__ == '__main__':
-    main()
+    Run('C01').guard(body)
